@@ -2,7 +2,7 @@
 
 P = {
     "id": "C03",
-    "claimed": False,  # flip to True once bin/check is green AND Properties/C03.v has real theorems
+    "claimed": True,
     "coq_targets": ["Properties/C03.vo", "Run/Eval_C03.vo"],
     "theorems_module": "Properties.C03",
     "theorems": ["C03_method_list_semantics", "C03_method_list_rejected", "C03_hosts_any", "C03_decode_per_setting",
@@ -12,16 +12,50 @@ P = {
     "streams": [{
         "name": "routes", "pkg": "./internal/rules", "test": "TestVerifC03",
         "overlay": {"internal/rules/zz_verif_c03_test.go": "c03/c03_test.go"},
-        "eval_module": "Run.Eval_C03", "check_term": "check false false",
+        "eval_module": "Run.Eval_C03",
+        # check fx2 fx5: the model with / without the candidate repairs fixes/C03-F2.diff, fixes/C03-F5.diff
+        "check_term": "check false false",
         "n_quick": 1200, "n_thorough": 30000, "shard": 100,
         "findings": {1: "C03-F1", 2: "C03-F2", 3: "C03-F3", 4: "C03-F4", 5: "C03-F5", 6: "C03-F6", 7: "C03-F7", 8: "C03-F8"},
     }],
-    "rule": "tbd",
+    "rule": "a case = a rule set of 1-4 rules (scheme in {'',http,https,ftp}; method lists with ALL / !M / !!M / duplicates / unknown / empty string; 0-3 hosts "
+            "of type exact/glob/regex incl. non-compiling and unknown types; 1-2 routes per rule, 60% mutated from earlier expressions of the case "
+            "(literals, :name, :*, *name, **, escapes, shared prefixes, same shape with other names); path_params of each type on single "
+            "and free wildcards; allow_encoded_slashes off/on/no_decode) created by the real ruleFactory.CreateRule and loaded into the real "
+            "repository, plus 3-8 requests (6% of the cases: one rule probed with every method) (request line / X-Forwarded-* / Envoy CheckRequest; instantiations of the expressions and near "
+            "misses; segments re-encoded with %XX in either hex case, %2F, %2f, invalid escapes (Envoy), the place-holder text). Corpus first: "
+            "the witness of every finding and the documentation's examples. Observed per request: every matcher call (route, keys, values, "
+            "answer) through a pass-through recorder between the real tree and the real route matcher, the selected rule, URL.Captures after the "
+            "real Execute, the encoded-slash rejection. Non-trivial = a request with >= 2 matcher calls, or a call answered no/panic, or a "
+            "matched rule with non-empty captures (rejected rule sets: more than one rule); distinct by hash of the input.",
     "anchors": ["internal/rules/route_matcher.go", "internal/rules/typed_matcher.go", "internal/rules/rule_impl.go",
                 "internal/rules/rule_factory_impl.go", "internal/x/radixtree/tree.go", "internal/rules/config/matcher.go",
                 "internal/rules/repository_impl.go", "docs/content/docs/rules/regular_rule.adoc"],
-    "trusted": [],
-    "level_text": "tbd",
-    "level_note": "tbd",
-    "assumptions": [],
+    "trusted": ["glob (gobwas/glob) and regexp engines are oracles: compile ok? and the answer on each (pattern, value) pair of the case are "
+                "recorded from the real libraries; `exact` is modelled",
+                "net/url.PathUnescape is modelled (pct_decode) and compared through the captures of every run; request parsing "
+                "(http.ReadRequest, requestcontext, Envoy CheckRequest -> URL view) is observed, not modelled: the view (method, scheme, host, "
+                "Path, RawPath) is case data",
+                "radix tree: Add / findNode / Find are transcribed (no Delete, no priority sorting: static index bytes are unique); which route "
+                "is consulted first is C02's subject, C03 compares keys, values, answers and captures of the calls made",
+                "Go map iteration order is irrelevant: captures are compared as sorted association lists"],
+    "level_text": "Proof (kernel-checked, no axioms), for all method lists, host lists, path_params lists, engines, requests, keys and values: "
+                  "the matcher CreateRule assembles for a route answers exactly scheme && method(ALL / !M) && any-host && all path_params on the "
+                  "decoded value of the named wildcard, and never panics when keys and values have equal length (C03_route_matches_iff, "
+                  "C03_method_list_semantics, C03_hosts_any); the capture decoding of Execute equals the specified percent-decoding per "
+                  "encoded-slash setting, rejection under `off` exactly on encoded slashes, unnamed wildcards not exposed (C03_captures_exact, "
+                  "C03_decode_per_setting, C03_unnamed_not_exposed) - each outside the guards of the findings C03-F1, F4, F6, F7, F8, every "
+                  "guard with a _refuted witness. The key/value hand-over of the lookup tree (C03-F2, F3, F5) is proved refuted by witnesses on "
+                  "loaded rule sets and otherwise covered by correspondence: the model (faithful Add / findNode / Find) is run against the real "
+                  "CreateRule + repository + request contexts on ~1200 (quick) / 30000 (thorough) rule sets x 6-14 requests per run and every "
+                  "matcher call's keys, values and answer, the selected rule and the captures are compared.",
+    "level_note": "Trusted: Coq kernel/vm_compute; the driver (generator, recorder between tree and route, Gallina rendering); glob/regex "
+                  "engines as recorded oracles; the request view as case data. Values that are not validly percent-encoded (reachable only "
+                  "through Envoy) carry no requirement (hypothesis valid_enc). Eight open findings with guards (F1 hosts AND-ed, F2 free-wildcard "
+                  "keys, F3 catch-all key rename, F4 exclusion-only method list, F5 captures lost after a dead end -> wrong captures / "
+                  "request-triggered panic, F6 path_params on undecoded value under off, F7 lower-case %2f, F8 place-holder text); candidate "
+                  "repairs fixes/C03-F2.diff and fixes/C03-F5.diff, the model is parametric in both (check fx2 fx5).",
+    "assumptions": ["the driver is in-package (internal/rules) and wraps rule.Route values; a rename of ruleImpl/routeImpl fields or of the "
+                    "Route interface breaks the driver, not the property",
+                    "HTTP entry points always set RawPath (= EscapedPath); the Envoy entry point never does - taken from the observed view"],
 }
